@@ -825,7 +825,7 @@ func main() {
 		return
 	}
 	rep := hx.NewReport("C09", o.Seed, o.Tier)
-	rep.Rule = "grid: 32 flag subsets x 7 widths (none,0,1,5,12,*,-*) x 8 precisions (none . .0 .1 .3 .10 .* .*neg) x 13 conversions x 60 arguments x {byte,char} mode (sampled in quick, exhaustive in thorough); plus hostile formats (random tokens, flags after width, several directives, too few/extra arguments, invalid and non-ASCII conversion bytes), width/precision limits, print with OFS/ORS/OFMT, and fmt.Sprintf itself on typed arguments; distinct = distinct model request line; non-trivial = format contains a conversion"
+	rep.Rule = "grid: 32 flag subsets x 7 widths (none,0,1,5,12,*,-*) x 8 precisions (none . .0 .1 .3 .10 .* .*neg) x 13 conversions x 60 arguments x {byte,char} mode (sampled in quick, exhaustive in thorough); plus systematic formats with 2-4 conversions (every ordered pair of conversion kinds x several arguments, plain / '*' widths / two '*' precisions of every sign combination, all %c arrangements of numbers and strings, byte and char mode), hostile formats (random tokens, flags after width, several directives, too few/extra arguments, invalid and non-ASCII conversion bytes), width/precision limits, print with OFS/ORS/OFMT, and fmt.Sprintf itself on typed arguments; distinct = distinct model request line; non-trivial = format contains a conversion"
 	r := hx.NewRand(o.Seed)
 	for _, gen := range genBatches(o, r) {
 		if !process(gen(), o, rep) {
